@@ -4,7 +4,7 @@ stream is identical under every PYTHONHASHSEED."""
 import itertools
 from vt.ref import fa
 
-SYMS = ('a', 'b', 'c')
+SYMS = ('a', 'b', 'c', 'd', 'e', 'f', 'g', 'h')
 
 
 def qn(i):
@@ -209,6 +209,60 @@ def random_names(rng, n, avoid=(), exotic=False):
         if s not in names and s not in avoid:
             names.append(s)
     return names
+
+
+def long_words(rng, Sigma, count=24, lengths=(8, 9, 10, 11, 16, 17, 31, 32, 33, 64)):
+    """sampled long words (all words up to a bound stop at length 4..8): random letters, one letter repeated, periodic"""
+    S = sorted(Sigma)
+    out = []
+    if not S:
+        return out
+    for i in range(count):
+        L = lengths[i % len(lengths)]
+        m = i % 3
+        if m == 0:
+            w = ''.join(rng.choice(S) for _ in range(L))
+        elif m == 1:
+            w = rng.choice(S) * L
+        else:
+            p = ''.join(rng.choice(S) for _ in range(rng.randint(2, 3)))
+            w = (p * L)[:L]
+        out.append(w)
+    return out
+
+
+def layered_pairs_dfa(k, m=4, reachable=True):
+    """three layers: m base states told apart by one symbol; k (<= m*m) accepting states L_n with successors (x_(n // m), x_(n % m));
+    k*k states p_i_j with successors (L_i, L_j).  All states are pairwise distinguishable, and in ONE refinement round the block of
+    the p-states splits into k*k pieces whose signatures are pairs of block numbers up to k (two-digit numbers for k >= 11)"""
+    x = ['x%d' % i for i in range(m)]
+    L = ['L%d' % i for i in range(k)]
+    T = [(x[0], 'a', L[0]), (x[0], 'b', L[0]), (x[1], 'a', L[0]), (x[1], 'b', x[3 % m]), (x[2 % m], 'a', x[3 % m]), (x[2 % m], 'b', L[0]), (x[3 % m], 'a', x[3 % m]), (x[3 % m], 'b', x[3 % m])]
+    T = list(dict(((p, a), (p, a, q)) for (p, a, q) in T).values())
+    for n in range(k):
+        T += [(L[n], 'a', x[(n // m) % m]), (L[n], 'b', x[n % m])]
+    P = []
+    for i in range(k):
+        for j in range(k):
+            p = 'p_%d_%d' % (i, j)
+            P.append(p)
+            T += [(p, 'a', L[i]), (p, 'b', L[j])]
+    if not reachable:
+        return fa.make(x + L + P, 'ab', T, 'p_0_0', L)
+    # a binary tree above the p-states makes EVERY state reachable (then the minimal automaton is unique up to renaming)
+    level = list(P)
+    tree = []
+    n = 0
+    while len(level) > 1:
+        nxt = []
+        for i in range(0, len(level), 2):
+            t = 't%d' % n
+            n += 1
+            tree.append(t)
+            T += [(t, 'a', level[i]), (t, 'b', level[i + 1] if i + 1 < len(level) else level[i])]
+            nxt.append(t)
+        level = nxt
+    return fa.make(x + L + P + tree, 'ab', T, level[0], L)
 
 
 def hint_names(rng, n, hint='q'):
